@@ -505,9 +505,67 @@ def gen_name_clash(tier):
     yield ('solo:name-clash', ents)
 
 
+def gen_alias_chains(tier):
+    """<alias> whose target is another <alias> (Stamp -> Ticks -> gint32): every use of every link of the chain must be
+    stored as the final target.  Chains of depth 1..3 (4 in thorough) over each kind of final target, declared
+    innermost-first and outermost-first, each link used as parameter (in, out), return value, record field and constant.
+    Compiled alone ('solo:'): a namespace without foreign references must have no non-local directory entries."""
+    finals = [('gint32', lambda: B('gint32'), '7'), ('utf8', lambda: B('utf8'), 'seven'),
+              ('rec', lambda: I('Rec', 'CRec'), None), ('enum', lambda: I('En', 'CEn', byref=0), None),
+              ('foreign', lambda: I('GObject.Object', 'GObject'), None)]     # an <alias> holds a <type>, never an <array>
+    for (fname, final, cval), depth, order in itertools.product(finals, (1, 2, 3, 4) if tier == 'thorough' else (1, 2, 3),
+                                                                 ('inner-first', 'outer-first')):
+        names = ['Al%d' % j for j in range(depth)]
+        aliases = []
+        for j, n in enumerate(names):
+            aliases.append(AliasN(n, final() if j == 0 else AliasUse(names[j - 1], final())))
+        if order == 'outer-first':
+            aliases.reverse()
+        ents = [EnumN('En', [Member('x', 0), Member('y', 1)]), RecordN('Rec', [FieldN('x', B('gint'), writable=True)], ctype='CRec')]
+        ents += aliases
+        fields = []
+        for j, n in enumerate(names):
+            ents.append(Function('use_%d' % j, Ret(AliasUse(n, final()), 'none'),
+                                 [Param('a', AliasUse(n, final())),
+                                  Param('o', AliasUse(n, final()), direction='out', transfer='full')]))
+            ents.append(CallbackT('Cb%d' % j, Ret(AliasUse(n, final()), 'none'), [Param('a', AliasUse(n, final()))]))
+            fields.append(FieldN('f%d' % j, AliasUse(n, final())))
+            if cval is not None:
+                ents.append(ConstN('K%d' % j, AliasUse(n, final()), cval))
+        if fields:
+            ents.append(RecordN('Holder', fields))
+        yield ('solo:alias-chain:%s:%d:%s' % (fname, depth, order), ents)
+
+
+def gen_dependency_sets(tier):
+    """Whole documents ('solo:' + Doc) over every ordered selection of up to 3 <include>s from a menu containing
+    namespaces whose names are prefix-related to the compiled one (Test includes TestBase-1.0, Testing-2.0, Te-1.0 — as
+    Gdk includes GdkPixbuf): Header.dependencies must list exactly the includes, and a reference into each included
+    namespace must be stored as a cross-reference to it."""
+    from vt.girgen import Doc
+    menu = [('GLib', '2.0'), ('GObject', '2.0'), ('TestBase', '1.0'), ('Testing', '2.0'), ('Te', '1.0'), ('Other', '3.0')]
+    sels = [()]
+    for r in (1, 2, 3):
+        sels += list(itertools.permutations(menu, r)) if (tier == 'thorough' or r < 3) else \
+            [p for p in itertools.permutations(menu, r) if sum(1 for n, v in p if n.startswith('Te')) >= 2]
+    for sel in sels:
+        params = []
+        for n, v in sel:
+            if n in ('GLib', 'GObject'):
+                continue
+            params.append(Param('p_%s' % n.lower(), I('%s.Clock' % n, '%sClock' % n)))
+            params.append(Param('m_%s' % n.lower(), I('%s.Mode' % n, '%sMode' % n, byref=0)))
+        ents = [Function('use_deps', Ret(), params), RecordN('Rec', [FieldN('x', B('gint'), writable=True)], ctype='CRec')]
+        for use_ref in ((False, True) if any(n not in ('GLib', 'GObject') for n, v in sel) else (True,)):
+            # with and without any reference into the included namespaces
+            yield ('solo:deps:%s:%s' % ('+'.join('%s-%s' % nv for nv in sel) or 'none', 'refs' if use_ref else 'norefs'),
+                   Doc('Test', '1.0', ents if use_ref else ents[1:], includes=list(sel), shared_library='libtest.so.0',
+                       c_prefix='C', symbol_prefix='c'))
+
+
 ALL_GENS = [gen_callbacks, gen_enums, gen_records, gen_classes, gen_functions, gen_type_positions, gen_constants,
             gen_attr_everywhere, gen_same_type_everywhere, gen_return_flags,
-            gen_attr_table_edges, gen_name_clash]
+            gen_attr_table_edges, gen_name_clash, gen_alias_chains, gen_dependency_sets]
 
 # entries every batch needs because other entries refer to them by name
 SUPPORT = ('cb-basic', 'enum-En', 'rec-Rec', 'class-Obj', 'class-ObjClass', 'iface-IfA', 'iface-IfB', 'iface-IfC', 'alias')
